@@ -225,6 +225,25 @@ impl Prop for C20 {
           Ok(CaseInfo::nt(true).class(true, "reproducibility batch"))
         }
         Case::Edit { x, edit } => {
+          // the same kind of pair made the way a program makes it: clone a typed ReplaceSource, then give
+          // the clone one more replacement (the two share whatever clones share)
+          if let Spec::Replace { inner, repls } = x {
+            let mut a = rspack_sources::ReplaceSource::new(build(inner));
+            for r in repls {
+              crate::build::apply_repl(&mut a, r);
+            }
+            let _ = a.source();
+            let mut b = a.clone();
+            b.insert(0, "<+>", None);
+            if a.source() != b.source() {
+              if a == b {
+                return Err("a ReplaceSource and its clone with one more insertion differ in source() but compare equal".into());
+              }
+              if hash_of(&a) == hash_of(&b) {
+                return Err("a ReplaceSource and its clone with one more insertion differ in source() but hash identically".into());
+              }
+            }
+          }
           let Some(ed) = pick_edit(all_edits(x, false), *edit) else {
             return Ok(CaseInfo::default());
           };
